@@ -595,6 +595,22 @@ func (g *Gen) flatPosPred() *E {
 	}
 }
 
+// flatTest favours tests that select several siblings.
+func (g *Gen) flatTest() string {
+	switch g.R.Weighted([]int{6, 5, 3, 2, 1}) {
+	case 0:
+		return g.name()
+	case 1:
+		return "*"
+	case 2:
+		return "node()"
+	case 3:
+		return "text()"
+	default:
+		return "comment()"
+	}
+}
+
 // flatInner: predicate-free (or, with preds, predicate-carrying) child /
 // attribute / self path relative to the context node.
 func (g *Gen) flatInner(preds bool) *E {
@@ -613,7 +629,7 @@ func (g *Gen) flatInner(preds bool) *E {
 				s.Abbr = r.Chance(1, 2)
 			}
 		default:
-			t := g.nodeTest("child")
+			t := g.flatTest()
 			if !last && (t == "text()" || t == "comment()") {
 				t = "*"
 			}
@@ -637,7 +653,7 @@ func (g *Gen) flatInner(preds bool) *E {
 func (g *Gen) Flat() *E {
 	r := g.R
 	if r.Chance(1, 4) {
-		t := g.nodeTest("child")
+		t := g.flatTest()
 		switch r.Intn(4) {
 		case 0:
 			return &E{Op: "path", S: "//", Kids: []*E{{Op: "step", S: "child", T: t, Abbr: true}}}
